@@ -7,46 +7,50 @@ From Coq Require Import List ZArith Bool Arith Lia Setoid.
 Import ListNotations.
 From TV Require Import Lib.Obs C41.Model C41.Spec C41.Run C41.Proofs1 C41.Proofs2.
 Local Open Scope Z_scope.
+Set Default Proof Using "Type".
 
 (* ================= declarative specification ================= *)
-Inductive SpecSup (n : nat) (B : Z) : wmap -> Z -> list event -> outcome -> Prop :=
+Inductive SpecSup (ek : nat * nat) (n : nat) (B : Z) : wmap -> Z -> list event -> outcome -> Prop :=
 | SS_exit w r :
-    all_finished n w = true -> SpecSup n B w r [] (OExit 0)
+    all_finished n w = true -> SpecSup ek n B w r [] (OExit 0)
 | SS_nowait w r :
-    all_finished n w = false -> SpecSup n B w r [] OOutOfWaits
+    all_finished n w = false -> SpecSup ek n B w r [] (OWaitErr (snd ek))
 | SS_unknown w r pid st tr o :
     all_finished n w = false -> owner n w pid = None ->
-    SpecSup n B w r tr o -> SpecSup n B w r (EWait pid st :: tr) o
+    SpecSup ek n B w r tr o -> SpecSup ek n B w r (EWait pid st :: tr) o
 | SS_normal w r pid st i tr o :
     all_finished n w = false -> owner n w pid = Some i -> abnormal st = false ->
-    SpecSup n B (upd w i Finished) r tr o ->
-    SpecSup n B w r (EWait pid st :: ELog i pid (expected_log st) :: tr) o
+    SpecSup ek n B (upd w i Finished) r tr o ->
+    SpecSup ek n B w r (EWait pid st :: ELog i pid (expected_log st) :: tr) o
 | SS_giveup w r pid st i :
     all_finished n w = false -> owner n w pid = Some i -> abnormal st = true ->
     r + 1 > B ->
-    SpecSup n B w r [EWait pid st; ELog i pid (expected_log st)] OTooMany
+    SpecSup ek n B w r [EWait pid st; ELog i pid (expected_log st)] OTooMany
 | SS_forkfail w r pid st i :
     all_finished n w = false -> owner n w pid = Some i -> abnormal st = true ->
     r + 1 <= B ->
-    SpecSup n B w r [EWait pid st; ELog i pid (expected_log st)] OOutOfForks
+    SpecSup ek n B w r [EWait pid st; ELog i pid (expected_log st)] (OForkErr (fst ek))
 | SS_child w r pid st i :
     all_finished n w = false -> owner n w pid = Some i -> abnormal st = true ->
     r + 1 <= B ->
-    SpecSup n B w r [EWait pid st; ELog i pid (expected_log st); EFork i 0] (OChild i i)
+    SpecSup ek n B w r [EWait pid st; ELog i pid (expected_log st); EFork i 0] (OChild i i)
 | SS_restart w r pid st i p tr o :
     all_finished n w = false -> owner n w pid = Some i -> abnormal st = true ->
     r + 1 <= B -> p <> 0 -> pid_live n (upd w i Finished) p = false ->
-    SpecSup n B (upd w i (Running p)) (r + 1) tr o ->
-    SpecSup n B w r (EWait pid st :: ELog i pid (expected_log st) :: EFork i p :: tr) o.
+    SpecSup ek n B (upd w i (Running p)) (r + 1) tr o ->
+    SpecSup ek n B w r (EWait pid st :: ELog i pid (expected_log st) :: EFork i p :: tr) o.
 
-Inductive SpecInit (n : nat) (B : Z) : list nat -> wmap -> list event -> outcome -> Prop :=
-| SI_done w tr o : SpecSup n B w 0 tr o -> SpecInit n B [] w tr o
-| SI_forkfail i ids w : SpecInit n B (i :: ids) w [] OOutOfForks
-| SI_child i ids w : SpecInit n B (i :: ids) w [EFork i 0] (OChild i i)
+Inductive SpecInit (ek : nat * nat) (n : nat) (B : Z) : list nat -> wmap -> list event -> outcome -> Prop :=
+| SI_done w tr o : SpecSup ek n B w 0 tr o -> SpecInit ek n B [] w tr o
+| SI_forkfail i ids w : SpecInit ek n B (i :: ids) w [] (OForkErr (fst ek))
+| SI_child i ids w : SpecInit ek n B (i :: ids) w [EFork i 0] (OChild i i)
 | SI_start i ids w p tr o :
     p <> 0 -> pid_live n w p = false ->
-    SpecInit n B ids (upd w i (Running p)) tr o ->
-    SpecInit n B (i :: ids) w (EFork i p :: tr) o.
+    SpecInit ek n B ids (upd w i (Running p)) tr o ->
+    SpecInit ek n B (i :: ids) w (EFork i p :: tr) o.
+
+Section WithEk.
+Variable ek : nat * nat.
 
 (* ---------- small inversions of the boolean tests ---------- *)
 Lemma accept_if_true b : accept_if b = Accept -> b = true.
@@ -59,10 +63,10 @@ Lemma is_exit0_true o : is_exit0 o = true -> o = OExit 0.
 Proof. destruct o; simpl; try discriminate. intro H. apply Z.eqb_eq in H. subst. reflexivity. Qed.
 Lemma is_toomany_true o : is_toomany o = true -> o = OTooMany.
 Proof. destruct o; simpl; try discriminate; auto. Qed.
-Lemma is_outofforks_true o : is_outofforks o = true -> o = OOutOfForks.
-Proof. destruct o; simpl; try discriminate; auto. Qed.
-Lemma is_outofwaits_true o : is_outofwaits o = true -> o = OOutOfWaits.
-Proof. destruct o; simpl; try discriminate; auto. Qed.
+Lemma is_forkerr_true o : is_forkerr (fst ek) o = true -> o = OForkErr (fst ek).
+Proof. destruct o; simpl; try discriminate. intro H. apply Nat.eqb_eq in H. subst. reflexivity. Qed.
+Lemma is_waiterr_true o : is_waiterr (snd ek) o = true -> o = OWaitErr (snd ek).
+Proof. destruct o; simpl; try discriminate. intro H. apply Nat.eqb_eq in H. subst. reflexivity. Qed.
 Lemma is_child_of_true i o : is_child_of i o = true -> o = OChild i i.
 Proof.
   destruct o; simpl; try discriminate. intro H. apply andb_true_iff in H. destruct H as [A C].
@@ -71,18 +75,18 @@ Qed.
 
 (* ---------- soundness of the acceptor ---------- *)
 Lemma spec_sup_sound n B : forall k tr w r o,
-  (length tr <= k)%nat -> spec_sup n B w r tr o = Accept -> SpecSup n B w r tr o.
+  (length tr <= k)%nat -> spec_sup ek n B w r tr o = Accept -> SpecSup ek n B w r tr o.
 Proof.
   induction k as [|k IH]; intros tr w r o Hlen H; rewrite spec_sup_unfold in H.
   - destruct tr; [|simpl in Hlen; lia].
     destruct (all_finished n w) eqn:AF.
     + apply accept_if_true in H. simpl in H. apply is_exit0_true in H. subst. constructor. exact AF.
-    + apply accept_if_true, is_outofwaits_true in H. subst. constructor. exact AF.
+    + apply accept_if_true, is_waiterr_true in H. subst. constructor. exact AF.
   - destruct (all_finished n w) eqn:AF.
     { apply accept_if_true, andb_true_iff in H. destruct H as [H1 H2].
       apply is_nil_true in H1. apply is_exit0_true in H2. subst. constructor. exact AF. }
     destruct tr as [|e tr1].
-    { apply accept_if_true, is_outofwaits_true in H. subst. constructor. exact AF. }
+    { apply accept_if_true, is_waiterr_true in H. subst. constructor. exact AF. }
     destruct e as [?|? ?|pid st|? ? ?]; try discriminate.
     simpl in Hlen.
     destruct (owner n w pid) as [i|] eqn:OW.
@@ -103,7 +107,7 @@ Proof.
     assert (Hb : r + 1 <= B).
     { destruct (Z.gtb_spec (r + 1) B); [discriminate|lia]. }
     destruct tr2 as [|e tr3].
-    { apply accept_if_true, is_outofforks_true in H. subst. apply SS_forkfail; auto. }
+    { apply accept_if_true, is_forkerr_true in H. subst. apply SS_forkfail; auto. }
     destruct e as [?|i'' p|? ?|? ? ?]; try discriminate.
     simpl in Hlen.
     destruct (Nat.eqb i'' i) eqn:T1; cbn [negb] in H; [|discriminate].
@@ -119,12 +123,12 @@ Proof.
 Qed.
 
 Lemma spec_init_sound n B : forall ids w tr o,
-  spec_init n B ids w tr o = Accept -> SpecInit n B ids w tr o.
+  spec_init ek n B ids w tr o = Accept -> SpecInit ek n B ids w tr o.
 Proof.
   induction ids as [|i ids IH]; intros w tr o H; simpl in H.
   - constructor. eapply spec_sup_sound; [apply le_n|exact H].
   - destruct tr as [|e tr1].
-    { apply accept_if_true, is_outofforks_true in H. subst. constructor. }
+    { apply accept_if_true, is_forkerr_true in H. subst. constructor. }
     destruct e as [?|i' p|? ?|? ? ?]; try discriminate.
     destruct (Nat.eqb i' i) eqn:T1; cbn [negb] in H; [|discriminate].
     apply Nat.eqb_eq in T1. subst i'.
@@ -143,10 +147,10 @@ Qed.
 
 (* what an accepted observable of a fresh call looks like *)
 Lemma spec_check_sound np cpu mr res :
-  spec_check None np cpu mr res = Accept ->
+  spec_check ek None np cpu mr res = Accept ->
   exists tr,
     r_trace res = EStart (want_procs np cpu) :: tr /\
-    SpecInit (want_procs np cpu) (want_budget mr) (seq 0 (want_procs np cpu))
+    SpecInit ek (want_procs np cpu) (want_budget mr) (seq 0 (want_procs np cpu))
              (fun _ => NotStarted) tr (r_out res) /\
     r_task res = match r_out res with OChild _ t => Some t | _ => None end.
 Proof.
@@ -162,7 +166,7 @@ Qed.
 
 (* an accepted observable of a call made inside a worker *)
 Lemma spec_check_sound_nested t np cpu mr res :
-  spec_check (Some t) np cpu mr res = Accept ->
+  spec_check ek (Some t) np cpu mr res = Accept ->
   r_trace res = [] /\ r_out res = OAssert /\ r_task res = Some t.
 Proof.
   unfold spec_check. intro H. apply accept_if_true in H.
@@ -206,9 +210,9 @@ Fixpoint life (s : lstate) (l : list event) : option lstate :=
 (* how the final lifecycle state of worker i constrains the outcome of the call *)
 Definition life_post (o : outcome) (i : nat) (s : lstate) : Prop :=
   (forall c, o = OExit c -> s = SFin) /\
-  (s = SCrashed -> o = OTooMany \/ o = OOutOfForks) /\
+  (s = SCrashed -> o = OTooMany \/ o = (OForkErr (fst ek))) /\
   (s = SChild -> o = OChild i i) /\
-  (s = SNot -> o = OOutOfForks \/ exists j, o = OChild j j).
+  (s = SNot -> o = (OForkErr (fst ek)) \/ exists j, o = OChild j j).
 
 Lemma lstep_log i pid st :
   lstep (SRun pid) (ELog i pid (expected_log st)) = Some (if abnormal st then SCrashed else SFin).
@@ -234,11 +238,11 @@ Lemma neq_eqb_false (j i : nat) : j <> i -> Nat.eqb j i = false.
 Proof. intro N. apply Nat.eqb_neq. exact N. Qed.
 
 Lemma SpecSup_life n B w r tr o :
-  SpecSup n B w r tr o ->
+  SpecSup ek n B w r tr o ->
   forall i, (i < n)%nat ->
   exists s, life (of_w (w i)) (proj i tr) = Some s /\
     (forall c, o = OExit c -> s = SFin) /\
-    (s = SCrashed -> o = OTooMany \/ o = OOutOfForks) /\
+    (s = SCrashed -> o = OTooMany \/ o = (OForkErr (fst ek))) /\
     (s = SChild -> o = OChild i i) /\
     (s = SNot -> w i = NotStarted).
 Proof.
@@ -318,7 +322,7 @@ Proof.
 Qed.
 
 Lemma SpecInit_life n B : forall m k w tr o,
-  SpecInit n B (seq k m) w tr o ->
+  SpecInit ek n B (seq k m) w tr o ->
   (k + m = n)%nat ->
   (forall i, (i < k)%nat -> w i <> NotStarted) ->
   (forall i, (k <= i)%nat -> w i = NotStarted) ->
@@ -364,7 +368,7 @@ Qed.
 
 (* no event ever mentions a task id outside 0..n-1 *)
 Lemma SpecSup_no_stranger n B w r tr o :
-  SpecSup n B w r tr o -> forall i, (n <= i)%nat -> proj i tr = [].
+  SpecSup ek n B w r tr o -> forall i, (n <= i)%nat -> proj i tr = [].
 Proof.
   induction 1 as [w r AF|w r AF|w r pid st tr o AF OW _ IH|w r pid st j tr o AF OW AB _ IH
                   |w r pid st j AF OW AB Bd|w r pid st j AF OW AB Bd|w r pid st j AF OW AB Bd
@@ -376,7 +380,7 @@ Proof.
 Qed.
 
 Lemma SpecInit_no_stranger n B : forall m k w tr o,
-  SpecInit n B (seq k m) w tr o -> (k + m = n)%nat ->
+  SpecInit ek n B (seq k m) w tr o -> (k + m = n)%nat ->
   forall i, (n <= i)%nat -> proj i tr = [].
 Proof.
   induction m as [|m IH]; intros k w tr o H Hkm i Hi.
@@ -409,7 +413,7 @@ Lemma nforks_cons e tr : nforks (e :: tr) = (if is_fork e then 1 else 0) + nfork
 Proof. unfold nforks. simpl. destruct (is_fork e); simpl length; lia. Qed.
 
 Lemma SpecSup_budget n B w r tr o :
-  SpecSup n B w r tr o -> 0 <= r <= Z.max 0 B ->
+  SpecSup ek n B w r tr o -> 0 <= r <= Z.max 0 B ->
   (o = OTooMany <-> r + abn tr > Z.max 0 B) /\
   r + nforks tr <= Z.max 0 B /\
   nforks tr <= abn tr <= nforks tr + 1.
@@ -431,7 +435,7 @@ Proof.
 Qed.
 
 Lemma SpecInit_budget n B : forall ids w tr o,
-  SpecInit n B ids w tr o ->
+  SpecInit ek n B ids w tr o ->
   (o = OTooMany <-> abn tr > Z.max 0 B) /\
   nforks tr <= Z.of_nat (length ids) + Z.max 0 B.
 Proof.
@@ -458,21 +462,21 @@ Fixpoint logs_ok (prev : option (Z * Z)) (tr : list event) : Prop :=
   | _ :: t => logs_ok None t
   end.
 
-Lemma SpecSup_logs n B w r tr o : SpecSup n B w r tr o -> logs_ok None tr.
+Lemma SpecSup_logs n B w r tr o : SpecSup ek n B w r tr o -> logs_ok None tr.
 Proof.
   induction 1; simpl; auto.
   (* unknown pid: the next event is a wait or the end, never a log *)
-  match goal with H : SpecSup _ _ _ _ ?t _ |- logs_ok _ ?t => inversion H; subst; simpl in *; auto end.
+  match goal with H : SpecSup _ _ _ _ _ ?t _ |- logs_ok _ ?t => inversion H; subst; simpl in *; auto end.
 Qed.
 
-Lemma SpecInit_logs n B ids w tr o : SpecInit n B ids w tr o -> logs_ok None tr.
+Lemma SpecInit_logs n B ids w tr o : SpecInit ek n B ids w tr o -> logs_ok None tr.
 Proof.
   induction 1; simpl; auto. eapply SpecSup_logs; eauto.
 Qed.
 
 (* ================= a child returns, and sees, its own id; exit code ================= *)
 Lemma SpecSup_outcome n B w r tr o :
-  SpecSup n B w r tr o ->
+  SpecSup ek n B w r tr o ->
   (forall c, o = OExit c -> c = 0) /\
   (forall a t, o = OChild a t -> a = t /\ (a < n)%nat /\ exists tr0, tr = tr0 ++ [EFork a 0]) /\
   o <> OAssert.
@@ -497,7 +501,7 @@ Proof.
 Qed.
 
 Lemma SpecInit_outcome n B : forall m k w tr o,
-  SpecInit n B (seq k m) w tr o -> (k + m = n)%nat ->
+  SpecInit ek n B (seq k m) w tr o -> (k + m = n)%nat ->
   (forall c, o = OExit c -> c = 0) /\
   (forall a t, o = OChild a t -> a = t /\ (a < n)%nat /\ exists tr0, tr = tr0 ++ [EFork a 0]) /\
   o <> OAssert.
@@ -513,3 +517,5 @@ Proof.
       intros a t E. destruct (I2 a t E) as [A1 [A2 [tr0 A3]]]. subst tr1.
       repeat split; auto. exists (EFork k p :: tr0). reflexivity.
 Qed.
+
+End WithEk.
